@@ -783,7 +783,7 @@ func (e *c05Env) xfer(how string, up bool, v int, dragPaths []string) (*c05XferR
 		nfiles = 1 // a second file would wait in the pause for the prompt's answer
 	}
 	src := e.makeSrc(nfiles, size)
-	quiet := e.rng.Intn(3) != 0
+	quiet := e.rng.Intn(3) != 0 || v == 9
 	base := baseArgs{Quiet: quiet, Bufsize: bufferSize{Size: 10240}, Timeout: 20}
 	if up {
 		if how != "refused" && dragPaths == nil {
@@ -1178,7 +1178,11 @@ func (e *c05Env) run(sc *c05Scenario) error {
 			}
 			e.result(si, st, c05Obs(c))
 		case "in":
-			c, err := e.feed("in", st.K, e.inBytes(st.K))
+			b := e.inBytes(st.K)
+			if st.V >= 100 {
+				b = []byte("x") // dedicated scenarios use fixed probes (stable violation keys)
+			}
+			c, err := e.feed("in", st.K, b)
 			if err != nil {
 				return err
 			}
@@ -1387,12 +1391,12 @@ func c05Plan(rng *rand.Rand, shard, nshards, rounds int, special bool) []*c05Sce
 		case 0:
 			sc := &c05Scenario{Name: "prompt-open-at-end", Opts: c05Opts{}}
 			sc.Steps = append(sc.Steps, c05Step{A: "xfer", How: "success", Up: true, V: 9})
-			sc.Steps = append(sc.Steps, c05Step{A: "in", K: "plain"}, c05Step{A: "out", K: "plain"}, c05Step{A: "in", K: "pathnon"})
+			sc.Steps = append(sc.Steps, c05Step{A: "in", K: "plain", V: 100}, c05Step{A: "out", K: "plain"}, c05Step{A: "in", K: "pathnon"})
 			scs = append(scs, sc)
 		case 1:
 			sc := &c05Scenario{Name: "drag-silent-server", Opts: c05Opts{Drag: true}}
 			sc.Steps = append(sc.Steps, c05Step{A: "drag", V: 2})
-			sc.Steps = append(sc.Steps, c05Step{A: "in", K: "plain"}, c05Step{A: "cmdecho"}, c05Step{A: "out", K: "plain"})
+			sc.Steps = append(sc.Steps, c05Step{A: "in", K: "plain", V: 100}, c05Step{A: "cmdecho"}, c05Step{A: "out", K: "plain"})
 			scs = append(scs, sc)
 		}
 	}
